@@ -11,8 +11,8 @@ CLAIMED = {
          'Trusted: MIR of the nightly toolchain as semantics; environment stubs for Evaluator::partial_evaluate / Policy::{id,effect}; HashMap/iterator adaptors as logged terms; what a condition evaluates to (C02), template links (C08), cedar-policy api.rs wrapper are outside.', '4 C01'),
  'C02': ('evaluator operator kernels unary_app and binary_arith over arbitrary Values (all kinds, all i64): exact checked arithmetic, overflow and type errors naming the first offending operand',
          'Trusted: model catalogue for core::num; EvaluationError constructors as opaque logged constructors. Outside: sets, `in`, records, like, parser/EST equivalence, extension calls.', '4 C02'),
- 'C06': ('expression level of the JSON policy format: for every kind of AST expression node (if, &&, ||, unary / binary operators, attribute access, has, like, is, set, record, extension call, variable, slot) AST -> EST (generic walker + ExprBuilder dispatch + est::Builder) followed by EST -> AST (est::Expr::try_into_ast + real ast constructors) gives back the same kind, the same operator and the children in place; children opaque (structural induction); every scope-constraint shape and the whole template (effect, three constraints, condition, two annotations with keys and values) survive AST -> EST -> AST',
-         'Narrow slice of C06. Trusted / outside: children round-trip by induction hypothesis; printing/parsing of names, pattern elements, literal values are opaque leaves; JSON serde, entity uids / literals as JSON, links, policy sets, PST and protobuf are NOT covered (native battery of 47 policies through Policy::to_json/from_json exercises the JSON layer).', '4 C06'),
+ 'C06': ('expression level of the JSON policy format: for every kind of AST expression node (if, &&, ||, unary / binary operators, attribute access, has, like, is, set, record, extension call, variable, slot) AST -> EST (generic walker + ExprBuilder dispatch + est::Builder) followed by EST -> AST (est::Expr::try_into_ast + real ast constructors) gives back the same kind, the same operator and the children in place; children opaque (structural induction); every scope-constraint shape and the whole template (effect, three constraints, condition, two annotations with keys and values) survive AST -> EST -> AST; the same expression-node round trip for the PST (PstBuilder / pst::Expr::into_expr)',
+         'Narrow slice of C06. Trusted / outside: children round-trip by induction hypothesis; printing/parsing of names, pattern elements, literal values are opaque leaves; JSON serde, entity uids / literals as JSON, links, policy sets, PST constraints / policies, PST extension calls and protobuf are NOT covered (native battery of 47 policies through Policy::to_json/from_json exercises the JSON layer).', '4 C06'),
  'C07': ('scalar kernels behind datetime/duration: offset, durationSince, toDate, toTime, toMilliseconds..toDays over all i64 (Int-mode, quotient lemma for / and %)',
          'Trusted: model catalogue (checked_*, rem_euclid, Option plumbing). Outside: constructor string parsing (regex, chrono), ip, decimal parsing.', '4 C07'),
  'C14': ('TPE response: classification of residual policies into the eight bucket sets and the residual map (one loop step from an arbitrary state, Residual::is_true/is_false/is_error executed from MIR), completion-quantified decision table, reason(), ResidualPolicy -> Policy conversion, policy_set() presents the residuals',
